@@ -43,6 +43,9 @@ type c18Case struct {
 	LongLine int `json:"long_line,omitempty"`
 	/* Sources, for the Converter.From seam: what was converted. */
 	Sources []string `json:"sources,omitempty"`
+	/* Locale, if set, is the LC_ALL of the process that generates the
+	function (the shells that run it stay in the C locale). */
+	Locale string `json:"generator_locale,omitempty"`
 }
 
 func (c c18Case) payload() string {
@@ -158,6 +161,7 @@ func c18RunBatch(shell, dir string, funcs [][]byte) ([]c18Obs, string, error) {
 	}
 	cmd := exec.Command(shell, sp)
 	cmd.Dir = dir
+	cmd.Env = []string{"PATH=" + os.Getenv("PATH"), "LC_ALL=C", "HOME=" + dir}
 	var stdout, stderr bytes.Buffer
 	cmd.Stdout, cmd.Stderr = &stdout, &stderr
 	cmd.Stdin = nil
@@ -305,69 +309,113 @@ func c18(r *ev.Result, tier string) {
 	base := ev.Scratch("c18-")
 	defer os.RemoveAll(base)
 	const batch = 400
-	nb := (len(cases) + batch - 1) / batch
 	var mu sync.Mutex
-	parallel(nb*2, func(j int) {
-		shell := []string{"dash", "bash"}[j%2]
-		bi := j / 2
-		lo, hi := bi*batch, min((bi+1)*batch, len(cases))
-		dir := filepath.Join(base, fmt.Sprintf("%s-%d", shell, bi))
-		os.MkdirAll(dir, 0o755)
-		funcs := make([][]byte, hi-lo)
-		for i := lo; i < hi; i++ {
-			f, err := shellfuncsfile.GenFuncList(cases[i].payload())
+	pass := func(cases []c18Case, tag string) {
+		nb := (len(cases) + batch - 1) / batch
+		parallel(nb*2, func(j int) {
+			shell := []string{"dash", "bash"}[j%2]
+			bi := j / 2
+			lo, hi := bi*batch, min((bi+1)*batch, len(cases))
+			dir := filepath.Join(base, fmt.Sprintf("%s%s-%d", tag, shell, bi))
+			os.MkdirAll(dir, 0o755)
+			funcs := make([][]byte, hi-lo)
+			for i := lo; i < hi; i++ {
+				f, err := shellfuncsfile.GenFuncList(cases[i].payload())
+				if nil != err {
+					r.Violate(ev.Violation{Signature: "generator-error/" + cases[i].Class, What: fmt.Sprintf("GenFuncList failed on %q: %v", cases[i].Lines, err), Kind: "c18", Replay: cases[i]})
+					f = []byte("tab_list() { :; }\n")
+				}
+				funcs[i-lo] = f
+			}
+			obs, stderr, err := c18RunBatch(shell, dir, funcs)
 			if nil != err {
-				r.Violate(ev.Violation{Signature: "generator-error/" + cases[i].Class, What: fmt.Sprintf("GenFuncList failed on %q: %v", cases[i].Lines, err), Kind: "c18", Replay: cases[i]})
-				f = []byte("tab_list() { :; }\n")
-			}
-			funcs[i-lo] = f
-		}
-		obs, stderr, err := c18RunBatch(shell, dir, funcs)
-		if nil != err {
-			/* A case broke the driver itself: run the cases one by one. */
-			for i := lo; i < hi; i++ {
-				o1, se, err := c18RunBatch(shell, dir, funcs[i-lo:i-lo+1])
-				if nil != err {
-					r.Violate(ev.Violation{Signature: "driver-broken/" + cases[i].Class, What: fmt.Sprintf("%s could not even run the case %q: %v", shell, cases[i].Lines, err), Kind: "c18", Replay: cases[i]})
-					continue
+				/* A case broke the driver itself: run the cases one by one. */
+				for i := lo; i < hi; i++ {
+					o1, se, err := c18RunBatch(shell, dir, funcs[i-lo:i-lo+1])
+					if nil != err {
+						r.Violate(ev.Violation{Signature: "driver-broken/" + cases[i].Class, What: fmt.Sprintf("%s could not even run the case %q: %v", shell, cases[i].Lines, err), Kind: "c18", Replay: cases[i]})
+						continue
+					}
+					_, cerr := os.Stat(filepath.Join(dir, "CANARY"))
+					os.Remove(filepath.Join(dir, "CANARY"))
+					c18Judge(r, shell, cases[i], funcs[i-lo], o1[0], se, nil == cerr)
+					if "" != strings.TrimSpace(se) {
+						r.Violate(ev.Violation{Signature: "stderr/" + cases[i].Class, What: fmt.Sprintf("%s wrote to stderr for %q: %q", shell, cases[i].Lines, trunc80(se)), Kind: "c18", Replay: cases[i]})
+					}
 				}
-				_, cerr := os.Stat(filepath.Join(dir, "CANARY"))
+				os.RemoveAll(dir)
+				return
+			}
+			_, cerr := os.Stat(filepath.Join(dir, "CANARY"))
+			if nil == cerr || "" != strings.TrimSpace(stderr) {
+				/* Find the culprit(s) one by one. */
 				os.Remove(filepath.Join(dir, "CANARY"))
-				c18Judge(r, shell, cases[i], funcs[i-lo], o1[0], se, nil == cerr)
-				if "" != strings.TrimSpace(se) {
-					r.Violate(ev.Violation{Signature: "stderr/" + cases[i].Class, What: fmt.Sprintf("%s wrote to stderr for %q: %q", shell, cases[i].Lines, trunc80(se)), Kind: "c18", Replay: cases[i]})
+				for i := lo; i < hi; i++ {
+					o1, se, err := c18RunBatch(shell, dir, funcs[i-lo:i-lo+1])
+					if nil != err {
+						continue
+					}
+					_, cerr := os.Stat(filepath.Join(dir, "CANARY"))
+					os.Remove(filepath.Join(dir, "CANARY"))
+					c18Judge(r, shell, cases[i], funcs[i-lo], o1[0], se, nil == cerr)
+					if "" != strings.TrimSpace(se) {
+						r.Violate(ev.Violation{Signature: "stderr/" + cases[i].Class, What: fmt.Sprintf("%s wrote to stderr for %q: %q", shell, cases[i].Lines, trunc80(se)), Kind: "c18", Replay: cases[i]})
+					}
+				}
+			} else {
+				for i := lo; i < hi; i++ {
+					c18Judge(r, shell, cases[i], funcs[i-lo], obs[i-lo], "", false)
 				}
 			}
+			mu.Lock()
+			r.Evaluations += hi - lo
+			r.Distinct += hi - lo
+			mu.Unlock()
 			os.RemoveAll(dir)
-			return
-		}
-		_, cerr := os.Stat(filepath.Join(dir, "CANARY"))
-		if nil == cerr || "" != strings.TrimSpace(stderr) {
-			/* Find the culprit(s) one by one. */
-			os.Remove(filepath.Join(dir, "CANARY"))
-			for i := lo; i < hi; i++ {
-				o1, se, err := c18RunBatch(shell, dir, funcs[i-lo:i-lo+1])
-				if nil != err {
-					continue
-				}
-				_, cerr := os.Stat(filepath.Join(dir, "CANARY"))
-				os.Remove(filepath.Join(dir, "CANARY"))
-				c18Judge(r, shell, cases[i], funcs[i-lo], o1[0], se, nil == cerr)
-				if "" != strings.TrimSpace(se) {
-					r.Violate(ev.Violation{Signature: "stderr/" + cases[i].Class, What: fmt.Sprintf("%s wrote to stderr for %q: %q", shell, cases[i].Lines, trunc80(se)), Kind: "c18", Replay: cases[i]})
-				}
+		})
+	}
+	pass(cases, "")
+	/* The generator in a UTF-8 locale (the operator's; the shells that run
+	the function stay where they are): nothing about the listing depends on
+	it.  Strings of <=3 symbols over quotes, a backslash, lead bytes that
+	announce 2, 3 and 4 bytes, a continuation byte and a complete character;
+	and the quote-breakers again. */
+	for _, loc := range []string{"en_US.UTF-8", "C.utf8"} {
+		var lcases []c18Case
+		lalpha := []string{"'", "\\", "\xf0", "\xe2", "\xc3", "\x80", "é", " ", "a", ";"}
+		var lrec func(prefix string, depth int)
+		lrec = func(prefix string, depth int) {
+			if "" != prefix {
+				lcases = append(lcases,
+					c18Case{Lines: []string{" " + prefix}, Class: "as-name", Locale: loc},
+					c18Case{Lines: []string{" fn " + prefix}, Class: "as-description", Locale: loc},
+					c18Case{Lines: []string{" fn x" + prefix + ";touch CANARY;echo '"}, Class: "before-a-command", Locale: loc},
+				)
 			}
+			if 3 == depth {
+				return
+			}
+			for _, s := range lalpha {
+				lrec(prefix+s, depth+1)
+			}
+		}
+		lrec("", 0)
+		for _, c := range cases {
+			if strings.HasPrefix(c.Class, "breaker-") {
+				c.Locale = loc
+				lcases = append(lcases, c)
+			}
+		}
+		old, had := os.LookupEnv("LC_ALL")
+		os.Setenv("LC_ALL", loc)
+		pass(lcases, loc+"-")
+		if had {
+			os.Setenv("LC_ALL", old)
 		} else {
-			for i := lo; i < hi; i++ {
-				c18Judge(r, shell, cases[i], funcs[i-lo], obs[i-lo], "", false)
-			}
+			os.Unsetenv("LC_ALL")
 		}
-		mu.Lock()
-		r.Evaluations += hi - lo
-		r.Distinct += hi - lo
-		mu.Unlock()
-		os.RemoveAll(dir)
-	})
+		r.Set("payloads_with_the_generator_in_"+loc, len(lcases))
+	}
 	c18FromSeam(r, base)
 	r.Sample(4, map[string]any{"doc_line": "# TABDOC: '\\''", "class": "breaker-name", "shells": "dash, bash"})
 	r.Sample(4, map[string]any{"doc_line": "# TABDOC: fn $`(", "class": "as-description"})
@@ -388,6 +436,9 @@ func c18Replay(kind string, raw json.RawMessage) int {
 	if strings.HasPrefix(c.Class, "from-seam") {
 		fmt.Println("findings of the Converter.From seam are replayed by re-running ./run C18 quick; the sources are named in the artefact")
 		return 2
+	}
+	if "" != c.Locale {
+		os.Setenv("LC_ALL", c.Locale)
 	}
 	f, err := shellfuncsfile.GenFuncList(c.payload())
 	fmt.Printf("payload:\n%s\nfunction:\n%s\nerr=%v\n", c.payload(), f, err)
